@@ -2,7 +2,7 @@
 (The table/argument machinery here is shared with C13, harness/props/c13.py.)"""
 import itertools, json, os, subprocess, sys, math
 from fractions import Fraction
-from values import Interner, err_class
+from values import Interner, err_class, storage
 
 PID = "C12"
 RULE = ("agg: every table with <=4 rows, one key column over {0,1,None} and a value column over {1,2,None} (quick and "
@@ -109,7 +109,7 @@ def call_kwargs(t, ext, spec, recs):
 def observe(res):
     """public observation of a result table: names and cells"""
     cols = res.cols()
-    return {"names": list(res.column_names()), "cols": [list(c._underlying) for c in cols]}
+    return {"names": list(res.column_names()), "cols": [list(storage(c)) for c in cols]}
 
 
 def run_raw(spec, which=("agg",)):
@@ -140,8 +140,8 @@ def run_raw(spec, which=("agg",)):
         else:
             t, ext = build(spec)
         out = {"nrows": len(t),
-               "tcols": [list(c._underlying) for c in t.cols()], "tnames": [c._name for c in t.cols()],
-               "xcols": [list(c._underlying) for c in ext], "xnames": [c._name for c in ext]}
+               "tcols": [list(storage(c)) for c in t.cols()], "tnames": [c.name for c in t.cols()],
+               "xcols": [list(storage(c)) for c in ext], "xnames": [c.name for c in ext]}
         napply = len(spec.get("apply") or [])
         recs = [Recorder() for _ in range(napply)]
         for w in which:
@@ -278,7 +278,7 @@ def _reduce(spec):
             r = t.aggregate(over="k", **{KW[f]: "x" for f in FNS})
             names = r.column_names()
             for f in FNS:
-                cells = list(r["x_" + f]._underlying) if ("x_" + f) in names else []
+                cells = list(storage(r["x_" + f])) if ("x_" + f) in names else []
                 agg.append([f, num_of(cells[0]) if len(cells) == 1 else "raise"])
         except Exception:
             agg = [[f, "raise"] for f in FNS]
